@@ -307,7 +307,7 @@ def run_carrier(carrier: str, steps: List[dict], driver: str = "helpers") -> Dic
                 out[k2] = d[k2]
         return out
 
-    return {"status": status, "error": repr(val)[:200] if status != "ok" else None,
+    return {"status": status, "error": core.clean_repr(val, 200) if status != "ok" else None,
             "transcript": [norm(m) for m in log], "outcomes": info.get("outcomes"),
             "requests": [{"method": r.get("method"), "params": r.get("params"), "has_id": "id" in r}
                          for r in script.seen if isinstance(r, dict)],
